@@ -7,6 +7,7 @@ import (
 	"math/rand"
 	"reflect"
 	"strings"
+	"sync"
 
 	"vh/ref/per"
 )
@@ -28,7 +29,10 @@ func New(r *rand.Rand, budget int) *Gen {
 
 func (g *Gen) feat(s string) { g.Features[s]++ }
 
-var canMemo = map[reflect.Type]bool{}
+var (
+	canMemo = map[reflect.Type]bool{}
+	canMu   sync.Mutex // C20 generates values in several goroutines
+)
 
 func isAper(t reflect.Type, name string) bool {
 	return t.Name() == name && strings.HasSuffix(t.PkgPath(), "aper")
@@ -40,6 +44,12 @@ func isChoice(t reflect.Type) bool {
 
 // Can reports whether a value of t can be generated at all (CHOICEs / open types without alternatives cannot).
 func Can(t reflect.Type) bool {
+	canMu.Lock()
+	defer canMu.Unlock()
+	return can(t)
+}
+
+func can(t reflect.Type) bool {
 	if v, ok := canMemo[t]; ok {
 		return v
 	}
@@ -50,19 +60,19 @@ func Can(t reflect.Type) bool {
 		}
 		switch t.Kind() {
 		case reflect.Ptr:
-			return Can(t.Elem())
+			return can(t.Elem())
 		case reflect.Slice:
 			if t.Elem().Kind() == reflect.Uint8 {
 				return true
 			}
-			return Can(t.Elem())
+			return can(t.Elem())
 		case reflect.Struct:
 			if t.NumField() == 0 {
 				return false // placeholder for a choice-Extensions container no IE is defined for
 			}
 			if isChoice(t) {
 				for i := 1; i < t.NumField(); i++ {
-					if Can(t.Field(i).Type) {
+					if can(t.Field(i).Type) {
 						return true
 					}
 				}
@@ -77,7 +87,7 @@ func Can(t reflect.Type) bool {
 				if ft.Kind() == reflect.Slice && ft.Elem().Kind() != reflect.Uint8 && (p.SizeLB == nil || *p.SizeLB == 0) {
 					continue
 				}
-				if !Can(ft) {
+				if !can(ft) {
 					return false
 				}
 			}
